@@ -1,4 +1,5 @@
 import Proofs.C15Paging
+import Proofs.C15Hist
 /-!
 # C15 — paged iteration yields every row exactly once, in order, and then stops
 
@@ -172,5 +173,220 @@ theorem C15_scan_row (it it' : Iter) (r : Int) (h : scanRow it = some (r, it')) 
       injection h with h; injection h with h1 h2
       subst h1; subst h2
       exact ⟨rfl, rfl, rfl, rfl⟩
+
+/-! ## Histories on one Query object (`Model/PagingHist.lean`): object reuse, decorations of the query and
+    of its context, interleaved iterators, the asynchronous prefetch as a scheduler step
+
+Full property: ∀ history of setter calls (Bind, PageSize, Prefetch, PageState, NoSkipMetadata, WithContext,
+Idempotent, SetSpeculativeExecutionPolicy, every verbatim option, Release + new Query), Iter() calls, Scan
+calls on any iterator in any interleaving, prefetch completions at any moment: every iterator delivers
+exactly the rows of ITS snapshot's result, requests its pages with ITS values/options and states, and ends
+with the failure of its own fetch — whatever happened to the Query object after its Iter() call. This holds
+on the unchanged code (no `_partial` needed): every setter replaces a field of the object, the next-page
+query is a copy taken when the page arrived. (A caller that mutates IN PLACE the slice it passed as
+`values...` or the map it passed to CustomPayload changes what later pages send: the copy is shallow. That
+is outside the model: values and options are immutable numbers here.) -/
+open Paging.Hist in
+/-- **An iterator depends only on its snapshot.** For every history without cancellation, from a world
+    with no iterators: an iterator that has ended (Scan returned false) has delivered exactly the rows, has
+    sent exactly the QUERY/EXECUTE requests and has exactly the final error of `run` on the Query as it was
+    at ITS Iter() call (`snap`) against the node's answers to that snapshot (`script`) — none of which
+    mentions the rest of the history: later Bind / PageSize / PageState / Consistency / Prefetch /
+    WithContext / Release, other iterators started from the same object and consumed in any interleaving,
+    and the moments at which prefetches complete are all irrelevant. -/
+theorem C15_iter_independent_of_rebind (srv : Nat → Bytes → List Reply) (ppOf : Int → Nat → Nat)
+    (w0 : World) (h : List Step) (h0 : w0.its = []) (hc : w0.env.cancelled = []) (hnc : ∀ s ∈ h, noCancel s) :
+    ∀ it ∈ (exec srv ppOf w0 h).its, finished it →
+      it.out = (run (ppOf it.snap.pf) it.script false it.snap).rows ∧
+      it.cur.err = (run (ppOf it.snap.pf) it.script false it.snap).err ∧
+      it.reqs.filter Req.isExec = (run (ppOf it.snap.pf) it.script false it.snap).reqs.filter Req.isExec := by
+  intro it hit hfin
+  have hinv : Inv ppOf w0 := ⟨hc, by intro y hy; rw [h0] at hy; cases hy⟩
+  have h1 := (exec_inv srv ppOf h w0 hinv hnc).2 it hit
+  rw [tot_finished ppOf it hfin] at h1
+  simp only [target, obs3, Prod.mk.injEq] at h1
+  exact ⟨h1.1, h1.2.2, h1.2.1⟩
+
+open Paging.Hist in
+/-- the same against the independent specification: with automatic paging the rows are the pages of the
+    snapshot's script in order, each once, up to its first failure, the error is that failure, and (no
+    present-but-empty state, KF-C15-1) the requests are the first one plus one per page carrying exactly
+    that page's state and otherwise the snapshot's statement, values, options and page size -/
+theorem C15_history_rows_spec (srv : Nat → Bytes → List Reply) (ppOf : Int → Nat → Nat)
+    (w0 : World) (h : List Step) (h0 : w0.its = []) (hc : w0.env.cancelled = []) (hnc : ∀ s ∈ h, noCancel s) :
+    ∀ it ∈ (exec srv ppOf w0 h).its, finished it → it.snap.disableAutoPage = false →
+      it.out = Spec.rows it.script ∧ it.cur.err = Spec.err it.script ∧
+      (NoEmptyState it.script → it.reqs.filter Req.isExec =
+        (Spec.reqs (template it.snap) it.snap.prepared it.script true (firstState it.snap)).filter Req.isExec) := by
+  intro it hit hfin hq
+  have h1 := C15_iter_independent_of_rebind srv ppOf w0 h h0 hc hnc it hit hfin
+  have h2 := run_rows_err (ppOf it.snap.pf) it.script false it.snap hq
+  refine ⟨h1.1.trans h2.1, h1.2.1.trans h2.2, ?_⟩
+  intro hne
+  rw [h1.2.2, run_reqs (ppOf it.snap.pf) it.script false it.snap hq hne]
+  rfl
+
+open Paging.Hist in
+/-- **Where the snapshot comes from, and that nothing touches it.** Iter() appends an iterator whose
+    snapshot is the object as it is at that moment (with the context of `q.WithContext(c).Iter()`) and whose
+    script is the node's answer list for exactly that snapshot; every other step leaves the number of
+    iterators unchanged; no step ever changes the snapshot or the script of an existing iterator. -/
+theorem C15_snapshot (srv : Nat → Bytes → List Reply) (ppOf : Int → Nat → Nat) (w : World) (s : Step) :
+    (∀ c, s = .iter c → ∃ it : It, (step srv ppOf w s).its = w.its ++ [it] ∧ it.snap = iterQry w.obj c ∧
+        it.script = srv it.snap.ident it.snap.pageState ∧ it.out = []) ∧
+    ((∀ c, s ≠ .iter c) → (step srv ppOf w s).its.length = w.its.length) ∧
+    (∀ (i : Nat) (it : It), w.its[i]? = some it →
+      ∃ it' : It, (step srv ppOf w s).its[i]? = some it' ∧ it'.snap = it.snap ∧ it'.script = it.script) := by
+  refine ⟨?_, ?_, ?_⟩
+  · intro c hs; subst hs
+    exact ⟨_, rfl, rfl, rfl, rfl⟩
+  · intro hs
+    cases s with
+    | iter c => exact absurd rfl (hs c)
+    | scan i n => simp only [step]; cases w.its[i]? <;> simp
+    | prefetched i => simp only [step]; cases w.its[i]? <;> simp
+    | _ => rfl
+  · intro i it hi
+    cases s with
+    | iter c =>
+      refine ⟨it, ?_, rfl, rfl⟩
+      simp only [step]
+      rw [List.getElem?_append_left (List.getElem?_eq_some_iff.1 hi).1]; exact hi
+    | scan j n =>
+      simp only [step]
+      cases hj : w.its[j]? with
+      | none => exact ⟨it, hi, rfl, rfl⟩
+      | some itj =>
+        by_cases hij : j = i
+        · subst hij
+          rw [hi] at hj; cases hj
+          have hlt := (List.getElem?_eq_some_iff.1 hi).1
+          have hs := (scanN_same ppOf n w.env it)
+          refine ⟨(scanN ppOf n w.env it).1, by simp [hlt], ?_, ?_⟩
+          · exact scanN_snap ppOf n w.env it |>.1
+          · exact scanN_snap ppOf n w.env it |>.2
+        · refine ⟨it, ?_, rfl, rfl⟩
+          simp [List.getElem?_set_ne hij, hi]
+    | prefetched j =>
+      simp only [step]
+      cases hj : w.its[j]? with
+      | none => exact ⟨it, hi, rfl, rfl⟩
+      | some itj =>
+        by_cases hij : j = i
+        · subst hij
+          rw [hi] at hj; cases hj
+          have hlt := (List.getElem?_eq_some_iff.1 hi).1
+          refine ⟨(force ppOf w.env it).1, by simp [hlt], ?_, ?_⟩
+          · exact (force_snap ppOf w.env it).1
+          · exact (force_snap ppOf w.env it).2
+        · refine ⟨it, ?_, rfl, rfl⟩
+          simp [List.getElem?_set_ne hij, hi]
+    | _ => exact ⟨it, hi, rfl, rfl⟩
+
+open Paging.Hist in
+/-- **Frame.** A step that is neither a Scan on iterator `i` nor the completion of ITS prefetch — every
+    setter, Bind, Release, Iter(), Scan calls and prefetches of OTHER iterators, even a cancellation —
+    leaves iterator `i` exactly as it was (current page, position, pending next-page query, rows delivered,
+    requests sent). -/
+theorem C15_history_frame (srv : Nat → Bytes → List Reply) (ppOf : Int → Nat → Nat) (w : World) (s : Step) (i : Nat)
+    (hi : i < w.its.length) (hs : (∀ n, s ≠ .scan i n) ∧ s ≠ .prefetched i) :
+    (step srv ppOf w s).its[i]? = w.its[i]? := by
+  cases s with
+  | iter c => simp only [step]; exact List.getElem?_append_left hi
+  | scan j n =>
+    have hij : j ≠ i := fun h => hs.1 n (by rw [h])
+    simp only [step]
+    cases w.its[j]? with
+    | none => rfl
+    | some itj => simp [List.getElem?_set_ne hij]
+  | prefetched j =>
+    have hij : j ≠ i := fun h => hs.2 (by rw [h])
+    simp only [step]
+    cases w.its[j]? with
+    | none => rfl
+    | some itj => simp [List.getElem?_set_ne hij]
+  | _ => rfl
+
+open Paging.Hist in
+/-- **Both executor paths fetch the same.** Whether queryExecutor.executeQuery takes the plain path or the
+    speculative one (idempotent query, Attempts() > 0: executions run with a cancellable CHILD of the
+    query's context that is dead once executeQuery has returned), the fetch is: nothing sent and
+    `context canceled` if the caller's context is done, otherwise conn.executeQuery of the unchanged query.
+    And the next-page query of the page it returns is the executed query with ONLY the paging state
+    replaced — in particular its context is the caller's, not the executor's child. -/
+theorem C15_executor_paths_agree (ppOf : Int → Nat → Nat) (e : Env) (script : List Reply) (q : Qry) :
+    (sessExec ppOf e script q).1 =
+      (if callerDead e q.ctx then ⟨errIter .ctx, script, []⟩ else connExec (ppOf q.pf) script e.cached q) ∧
+    (∀ n, (sessExec ppOf e script q).1.iter.next = some n → n.qry = { q with pageState := n.qry.pageState }) := by
+  have hfetch := sessExec_fst ppOf e script q
+  refine ⟨hfetch, ?_⟩
+  rw [hfetch]
+  cases hd : callerDead e q.ctx with
+  | true => intro n hn; simp [errIter] at hn
+  | false =>
+    simp only [Bool.false_eq_true, if_false]
+    exact connExec_next_copy (ppOf q.pf) script e.cached q
+
+open Paging.Hist in
+/-- **A cancellation between pages surfaces.** If the caller's context of the pending next-page query is
+    cancelled before that page was fetched (no prefetch has happened), the one fetch of the next page sends
+    nothing and yields `context canceled`; from there the iterator delivers the remaining rows of the
+    current page and then ends with THAT error, not normally (`fut`), and no further request is sent; in
+    particular when the current page is exhausted the next Scan returns false with the error set. -/
+theorem C15_cancel_surfaces (ppOf : Int → Nat → Nat) (e : Env) (it : It) (n : NextIter)
+    (he : it.cur.err = none) (hp : it.pre = none) (hn : it.cur.next = some n) (hd : callerDead e n.qry.ctx = true) :
+    (force ppOf e it).1.pre = some (errIter .ctx) ∧ (force ppOf e it).1.reqs = it.reqs ∧
+    (force ppOf e it).1.rest = it.rest ∧
+    fut ppOf (force ppOf e it).1 = ⟨it.cur.rows.drop it.cur.pos, [], some .ctx⟩ ∧
+    (it.cur.rows[it.cur.pos]? = none → ∀ k,
+      (scanF ppOf (k + 2) e it).2.2 = false ∧ (scanF ppOf (k + 2) e it).1.cur.err = some .ctx ∧
+      (scanF ppOf (k + 2) e it).1.out = it.out ∧ (scanF ppOf (k + 2) e it).1.reqs = it.reqs) := by
+  have hx := (C15_executor_paths_agree ppOf e it.rest n.qry).1
+  rw [hd] at hx
+  simp only [if_true] at hx
+  rw [force_eq ppOf e it n he hp hn, hx]
+  refine ⟨rfl, by simp, rfl, ?_, ?_⟩
+  · simp [fut, he, hn, futPage, errIter]
+  · intro hrow k
+    have hsr : scanRow it.cur = none := by simp [scanRow, he, hrow]
+    have hsr2 : scanRow { err := some Fail.ctx, pos := 0, rows := [], next := none, pagingState := [] } = none := by
+      simp [scanRow]
+    simp [scanF, hsr, he, hn, force_eq ppOf e it n he hp hn, hx, hsr2, errIter]
+
+open Paging.Hist in
+/-- **A Scan that returns false has ended the iterator** (the recursion of Scan through page switches —
+    empty pages, a prefetched page, failed fetches — always terminates within the model's fuel): after it,
+    the iterator carries its error or has neither a row nor a next page left. This is the `finished` of
+    `C15_iter_independent_of_rebind`: every drained iterator satisfies it. -/
+theorem C15_scan_false_is_finished (ppOf : Int → Nat → Nat) (e : Env) (it : It)
+    (h : (scanF ppOf (scanFuel it) e it).2.2 = false) : finished (scanF ppOf (scanFuel it) e it).1 :=
+  scanF_fuel ppOf e it h
+
+/-- non-vacuity: Bind(1).Iter(), one row consumed, Bind(2) + Idempotent + speculative policy on the SAME
+    object, a second Iter() drained first, a prefetch of the first iterator, then the first drained: each
+    iterator delivers the rows of its own key and asks for its page 2 with its own values and state -/
+example :
+    let srv : Nat → Bytes → List Reply := fun k st =>
+      let sc : List Reply := [.page [(k : Int) * 100 + 1, (k : Int) * 100 + 2] (some [UInt8.ofNat k, 1]), .page [(k : Int) * 100 + 3] none]
+      if st = [] then sc else sc.drop 1
+    let q0 : Qry := { ident := 1, prepared := true, skipMeta := true, pageSize := 2, pageState := [], disableAutoPage := false }
+    let w0 : Hist.World := { obj := q0, its := [], env := { cancelled := [], execs := 0, cached := false } }
+    let w := Hist.exec srv (fun _ n => n) w0
+      [.iter none, .scan 0 1, .bind 2, .idem true, .spec 1, .iter none, .scan 1 9, .prefetched 0, .scan 0 9]
+    w.its.map (·.out) = [[101, 102, 103], [201, 202, 203]] ∧ w.its.map (·.cur.err) = [none, none] ∧
+    w.its.map (·.reqs) = [[.prepare, .exec 1 true true none (some 2), .exec 1 true true (some [1, 1]) (some 2)],
+                          [.exec 2 true true none (some 2), .exec 2 true true (some [2, 1]) (some 2)]] ∧
+    w.env.execs = 2 := by
+  decide
+
+/-- non-vacuity of the cancellation statement: context 7 is cancelled after the first page arrived -/
+example :
+    let srv : Nat → Bytes → List Reply := fun _ _ => [.page [1, 2] (some [9]), .page [3] none]
+    let q0 : Qry := { ident := 1, prepared := false, skipMeta := false, pageSize := 0, pageState := [], disableAutoPage := false, ctx := some 7 }
+    let w0 : Hist.World := { obj := q0, its := [], env := { cancelled := [], execs := 0, cached := false } }
+    let w := Hist.exec srv (fun _ n => n) w0 [.iter none, .scan 0 1, .cancel 7, .scan 0 9]
+    w.its.map (·.out) = [[1, 2]] ∧ w.its.map (·.cur.err) = [some .ctx] ∧
+    w.its.map (·.reqs) = [[.exec 1 false false none none]] := by
+  decide
 
 end C15
